@@ -356,6 +356,11 @@ Ladder(op, tp, c) ==
     [] op = "accept" /\ tp \in {"ux", "uxf"} -> <<"epoll", "accept">> \o CtlLad(c)
     [] op = "accept" /\ tp = "tcp" -> <<"epoll", "bell", "accept">> \o CtlLad(c)
     [] op = "accept" /\ tp = "utls" -> <<"epoll", "bell", "accept", "unbell">> \o CtlLad(c)
+    \* TLS: the credentials are read from files (ctx_store.c / ut_load_file: fopen, fread until short, fclose) before the
+    \* TCP connection is made; a file that opens but cannot be read (EISDIR, EIO) fails the call like one that does not open
+    [] op = "connect" /\ tp = "btls" -> <<"epoll", "bell", "credopen", "credread", "credclose", "credopen", "credread", "credclose",
+                                          "sock", "conn">> \o CtlLad(c)
+    [] op = "server" /\ tp = "btls" -> <<"epoll", "credopen", "credread", "credclose", "sock", "bind", "listen">> \o CtlLad(c)
     [] OTHER -> <<>>
 
 Path(h, k) == IF k = "ctl" THEN <<"ctl", h>> ELSE <<"uxf", h>>
@@ -396,10 +401,12 @@ ApiBegin ==
 AfdFree == {i \in 1..Len(g.afd) : g.afd[i].cnt < PoolMax}
 
 \* failable steps; a failing control-interface step is silent: the call goes on without control socket
-Failable == {"epoll", "sock", "timer", "accept", "ctlsock", "bell", "sockopt", "conn", "listen", "ctllisten", "bind", "bindf", "ctlbind"}
+Failable == {"epoll", "sock", "timer", "accept", "ctlsock", "bell", "sockopt", "conn", "listen", "ctllisten", "bind", "bindf", "ctlbind",
+             "credopen", "credread"}
 CallOf(k) == CASE k = "epoll" -> "epoll_create1" [] k = "timer" -> "timerfd_create" [] k = "accept" -> "accept4"
                [] k = "bell" -> "eventfd" [] k = "sockopt" -> "setsockopt" [] k = "conn" -> "connect"
-               [] k \in {"listen", "ctllisten"} -> "listen" [] k \in {"bind", "bindf", "ctlbind"} -> "bind" [] OTHER -> "socket"
+               [] k \in {"listen", "ctllisten"} -> "listen" [] k \in {"bind", "bindf", "ctlbind"} -> "bind"
+               [] k = "credopen" -> "open" [] k = "credread" -> "fread" [] OTHER -> "socket"
 
 LastSock(acq) == LET I == {i \in 1..Len(acq) : acq[i][1] \in {"sock", "ctlsock", "accept"}} IN
                  IF I = {} THEN -1 ELSE acq[CHOOSE i \in I : \A j \in I : j <= i][2]
@@ -434,6 +441,15 @@ StepOk ==
                 p == Path(h, IF k = "ctlbind" THEN "ctl" ELSE "uxf")
             IN /\ Feed(Sys("bind", s, -1, IF k = "ctlbind" THEN 1 ELSE 2, 0, 0, 0, p))
                /\ g' = [g EXCEPT !.lad = rest, !.acq = Append(@, <<"file", p>>)]
+       [] k = "credopen" ->
+            /\ Feed(Sys("open", -1, -1, 0, fd, 0, 0, ""))
+            /\ g' = [g EXCEPT !.lad = rest, !.acq = Append(@, <<"cfile", fd>>)]
+       [] k = "credread" ->
+            /\ Feed(Sys("fread", g.acq[Len(g.acq)][2], -1, 0, 1, 0, 0, ""))
+            /\ g' = [g EXCEPT !.lad = rest]
+       [] k = "credclose" ->      \* the stream is closed as soon as the file has been read: last acquired, first released
+            /\ Feed(Sys("close", g.acq[Len(g.acq)][2], -1, 0, 0, 0, 0, ""))
+            /\ g' = [g EXCEPT !.lad = rest, !.acq = SubSeq(@, 1, Len(@) - 1)]
        [] k = "part" -> /\ UNCHANGED <<ms, viol>> /\ g' = [g EXCEPT !.lad = rest, !.part = Len(g.acq)]
        [] k = "unbell" -> \* utls: the connection went over the UX socket, the TLS sub-socket is closed
             /\ UNCHANGED <<ms, viol>>
@@ -451,6 +467,8 @@ StepFail ==
         THEN g' = [g EXCEPT !.pc = "ctlundo", !.lad = <<>>, !.nfail = @ + 1]
         ELSE g' = [g EXCEPT !.pc = "unwind", !.lad = <<>>, !.nfail = @ + 1,
                             !.acq = IF k = "sockopt" /\ "passcred_leak" \in Dev THEN SubSeq(@, 1, Len(@) - 1)
+                                    \* a read error takes the exit that does not close the stream
+                                    ELSE IF k = "credread" /\ "credread_leak" \in Dev THEN SubSeq(@, 1, Len(@) - 1)
                                     ELSE IF "utls_ux_fail_leak" \in Dev /\ g.part > 0 THEN SubSeq(@, g.part + 1, Len(@))
                                     ELSE @]
 
